@@ -22,6 +22,7 @@ class Proof:
     self.trusted = []        # strings
     self.assumptions = []    # strings
     self.not_covered = []
+    self.native_sweeps = set()   # (driver, checker) pairs registered for replay: also run as cross-checks
     self.bounded = []        # bounded stand-ins: dicts
     self.lemmas = {}         # name -> z3 formula (proved by own obligations)
     self.paths = 0
@@ -112,3 +113,4 @@ class Proof:
                       else {'mode': 'sweep', 'fn': fn})
       return d
     self.replayers[prefix] = mk
+    self.native_sweeps.add((driver, fn))
